@@ -156,7 +156,14 @@ def check_corruption(ctx, pms, case, tmpdir):
     pos = case["position"] % len(targets)
     value = slot.values[case["value_index"] % len(slot.values)]
     target = targets[pos]
+    # did the 'invalid' value change the field at all?  (judged on the FIELD, not on what is written: an invalid object
+    # whose output happens to equal the valid one is exactly what this property is about)
+    probe = slot.attr or ("uid" if "uid" in slot.name else None)
+    before = (repr(getattr(target, probe, None)), type(getattr(target, probe, None))) if probe else None
     slot.apply(target, value)
+    if probe and (repr(getattr(target, probe, None)), type(getattr(target, probe, None))) == before:
+        ctx.note_add("corruption_was_a_no_op")
+        return None
     how = case.get("how", "dumps")
     outcome, info = try_write(obj, how, tmpdir)
     ctx.count("slot:%s:%s" % (fmt, slot.name))
@@ -168,11 +175,6 @@ def check_corruption(ctx, pms, case, tmpdir):
         ctx.count("position-nested-variant")
     if fmt == "images" and slot.name.startswith("image") and pos > 0:
         ctx.count("position-second-image")
-    if outcome == "WRITTEN" and info == valid_text:
-        # the 'invalid' value is what the field held already (e.g. the mis-aligned UID pattern happens to spell the valid
-        # UID): the object was not corrupted at all
-        ctx.note_add("corruption_was_a_no_op")
-        return None
     ok = outcome in ("TypeError", "ValueError")
     ctx.monitor("invalid-refused", fired=not ok)
     if not ok:
